@@ -179,3 +179,13 @@ Definition prelu_kind (codes : list Z) (zp sn sd : Z) : Z :=
   else if hi * sn <? sd then 2 else 3.
 (* PRELU on values scaled by the common denominator d > 0 of the slope a / d *)
 Definition prelu_val (a d x : Z) : Z := if 0 <=? x then d * x else a * x.
+
+(* ---------- rewrite_concat_ops / rewrite_split_ops: parts of a tensor along one axis ---------- *)
+(* part i occupies [offset i, offset i + extent i) of the axis, offsets being the running sum of the extents *)
+Fixpoint offsets_from (start : Z) (es : list Z) : list Z :=
+  match es with [] => [] | e :: t => start :: offsets_from (start + e) t end.
+Fixpoint find_slice (start : Z) (es : list Z) (k : Z) (i : nat) : option nat :=
+  match es with
+  | [] => None
+  | e :: t => if (start <=? k) && (k <? start + e) then Some i else find_slice (start + e) t k (S i)
+  end.
